@@ -46,7 +46,18 @@ def gen_case(rng, tier):
         if rng.random() < 0.25:
             case["in_place"] = True
             case["first_run"] = {"vectorize": not case["run"]["vectorize"]}     # the same template object was run before with the other vectorization setting
-        o = N.oracle_traj(case)
+        if rng.random() < 0.3:
+            # the same kind of path also addresses values: update_var with a wildcard and one value per matched node before the run
+            from .c07 import apply_history_spec
+            cand = sorted(M.const_paths(flat)) + sp
+            p0 = rng.choice(cand)
+            *_, op0, var0 = p0.split("/")
+            key0 = f"all/{op0}/{var0}"
+            tg0 = resolve(mdl, flat, key0)
+            if len(tg0) >= 2:
+                case["history"] = [["update_var", {key0: [C.q2s(F(rng.randint(-6, 6), rng.choice([1, 2]))) for _ in tg0]}]]
+                case["expected_mdl"] = apply_history_spec(mdl, case["history"])
+        o = N.oracle_traj(dict(case, mdl=case.get("expected_mdl", case["mdl"])))
         if "error" in o or o["bits"] > 44:
             continue
         # the property is about addressing: keep cases in which all requested variables have pairwise different trajectories
@@ -266,7 +277,7 @@ def check(tier, seed, replay=None):
         cases = [json.load(open(f))["case"] for f in sorted(glob.glob(os.path.join(C.VERIF, "corpus", PID, "*.json")))]
         cases += [gen_case(rng, tier) for _ in range(160 if tier == "quick" else 2500)]
         cases += [gen_bound_case(rng, tier) for _ in range(12 if tier == "quick" else 150)]
-    orcs = [N.oracle_traj(c) for c in cases]
+    orcs = [N.oracle_traj(dict(c, mdl=c.get("expected_mdl", c["mdl"]))) for c in cases]
     impl = C.run_forked(N.impl_run, cases, timeout=240)
     drv = C.Driver()
     bad = []
@@ -276,7 +287,7 @@ def check(tier, seed, replay=None):
             raise C.HarnessError("harness child crashed: " + str(im)[:800])
         outs = case["run"]["outputs"]
         reqs = list(outs.values()) if isinstance(outs, dict) else outs
-        rep.count(f"{case['form']}-{'vec' if case['run']['vectorize'] else 'novec'}" + ("-second-run-on-template" if case.get("first_run") else "") + ("-bound-edge-input" if case.get("bound_edges") else ""), json.dumps(case, sort_keys=True), nontrivial=(len(reqs) > 1 or any("all" in r.split("/") for r in reqs)))
+        rep.count(f"{case['form']}-{'vec' if case['run']['vectorize'] else 'novec'}" + ("-second-run-on-template" if case.get("first_run") else "") + ("-bound-edge-input" if case.get("bound_edges") else "") + ("-wildcard-update_var" if case.get("history") else ""), json.dumps(case, sort_keys=True), nontrivial=(len(reqs) > 1 or any("all" in r.split("/") for r in reqs)))
         mr = drv.ask(N.model_traj_request(case, orc["flat"]))
         if mr.get("rows") != orc["rows"]:
             raise C.HarnessError("Lean model and oracle disagree: " + json.dumps(case)[:400])
